@@ -9,6 +9,7 @@ import (
 	"path/filepath"
 	"sort"
 	"strings"
+	"sync"
 	"time"
 
 	"github.com/ddddddO/gtree"
@@ -94,8 +95,11 @@ func handleReq(rq wproto.Req) (rp wproto.Rep) {
 		case "output":
 			return gtree.OutputFromMarkdown(&buf, strings.NewReader(rq.Doc), opts...)
 		case "walk":
+			var mu sync.Mutex // massive mode calls back from several goroutines
 			return gtree.WalkFromMarkdown(strings.NewReader(rq.Doc), func(wn *gtree.WalkerNode) error {
+				mu.Lock()
 				rp.Walk = append(rp.Walk, wn.Row())
+				mu.Unlock()
 				return nil
 			}, opts...)
 		case "mkdir":
